@@ -670,12 +670,6 @@ $BODY
 //@ end
 
 // ---------- include / import (no operands) ----------
-//@ extract src/ast/mod.rs :: struct IncludeDef
-//@   rule R0
-//@ end
-//@ extract src/ast/mod.rs :: struct ImportDef
-//@   rule R0
-//@ end
 // exactly three ops: the importer's name, the path (on top), the hook (runtime.rs `include` pops path, then type)
 pub open spec fn include_emits(a: OpsMap, b: OpsMap, def: IncludeDef) -> bool {
     let n0 = a.ops@.len() as int;
